@@ -1,6 +1,8 @@
 //! pvharness <property> --seed N --count K --out DIR [--tmp DIR]
 //! Runs the real crate on generated inputs and writes cases / observations for the Coq model to re-evaluate.
 mod c01;
+mod c02;
+mod cifgen;
 mod c05;
 mod c06;
 mod ciftext;
@@ -81,9 +83,40 @@ fn main() {
             }
         }));
     }
+    if prop == "probe" {
+        // debugging aid: read the file named by PV_FILE (format from PV_FORMAT = pdb | cif) and print the outcome
+        let path = std::env::var("PV_FILE").expect("PV_FILE");
+        let bytes = std::fs::read(&path).expect("read");
+        let format = if std::env::var("PV_FORMAT").map_or(false, |f| f == "cif") { pdbtbx::Format::Mmcif } else { pdbtbx::Format::Pdb };
+        let level = std::env::var("PV_LEVEL").ok().and_then(|l| l.parse().ok()).unwrap_or(2usize);
+        let opts = std::env::var("PV_OPTS").ok().and_then(|l| l.parse().ok()).unwrap_or(0usize);
+        let r = pdbtbx::ReadOptions::default()
+            .set_format(format)
+            .set_level(snap::strictness(level))
+            .set_discard_hydrogens(opts & 1 != 0)
+            .set_only_first_model(opts & 2 != 0)
+            .set_only_atomic_coords(opts & 4 != 0)
+            .read_raw(std::io::BufReader::new(&bytes[..]));
+        match r {
+            Ok((p, e)) => {
+                println!("OK atoms={} models={} errors={}", p.total_atom_count(), p.model_count(), e.len());
+                for x in e {
+                    println!("{x}");
+                }
+            }
+            Err(e) => {
+                println!("ERR");
+                for x in e {
+                    println!("{x}");
+                }
+            }
+        }
+        return;
+    }
     let mut out = out::Out::new(&outdir);
     match prop.as_str() {
         "C01" => c01::run(seed, count, thorough, &mut out),
+        "C02" => c02::run(seed, count, thorough, &mut out),
         "C05" => c05::run(seed, count, thorough, &mut out),
         "C06" => c06::run(seed, count, thorough, &mut out),
         "C07" => c07::run(seed, count, &mut out, &tmp),
